@@ -33,6 +33,7 @@ pub fn roundtrip<E: Entry>(g: &mut Gen, st: &mut Stats) -> CaseResult {
             st.sample(hash_of(&bytes), || format!("{}: {:?} <-> {}", E::NAME, v, short_hex(&bytes)));
         }
         st.class(E::NAME);
+        if let Some(c) = E::repr_class(&v) { st.class(c) }
         Ok(())
     })
 }
